@@ -14,6 +14,10 @@ import types
 from sim import kernel, net as simnet
 
 
+def _never():
+    return False
+
+
 class _ListenSocket:
     def __init__(self):
         self.closed = False
@@ -70,6 +74,13 @@ class ThreadingTCPServer:
         net = simnet._net()
         self._listener = net.listen(self._port, self._accept)
         self._listener.owner = self
+        self._log('open')
+
+    def _log(self, what):
+        net = simnet._net()
+        if not hasattr(net, 'listen_log'):
+            net.listen_log = []
+        net.listen_log.append((kernel.SIM.next_seq(), kernel.SIM.vnow(), self._port, what))
 
     def _accept(self, sock, addr):
         world_handlers = self.handler_recs
@@ -99,14 +110,20 @@ class ThreadingTCPServer:
             raise ValueError('Invalid file descriptor: -1')
         self._serving = True
         try:
-            sim.wait_until(lambda: self._shutdown_request, None, what=f'serve_forever {self._port}')
+            # like socketserver: the shutdown request is looked at once per poll interval
+            while not self._shutdown_request:
+                sim.wait_until(_never, poll_interval, what=f'serve_forever {self._port}')
         finally:
             self._shutdown_request = False
             self._serving = False
 
     def shutdown(self):
+        """blocks until serve_forever has returned (as socketserver.BaseServer.shutdown does)"""
         self._shutdown_request = True
-        kernel.SIM.yield_point()
+        sim = kernel.SIM
+        sim.yield_point()
+        if self._serving:
+            sim.wait_until(lambda: not self._serving, None, what=f'shutdown {self._port}')
 
     def server_close(self):
         self.socket.close()
@@ -117,6 +134,7 @@ class ThreadingTCPServer:
                 del net.listeners[self._port]
             lst.accept = False
             self._listener = None
+            self._log('close')
 
     def __enter__(self):
         return self
